@@ -66,7 +66,9 @@ pub fn exec(a: &[&str]) -> String {
         }
         "ham" => {
             let d1 = DnaString::from_bytes(&digits(a[1]));
-            let d2 = DnaString::from_bytes(&digits(a[2]));
+            let d2_own = DnaString::from_bytes(&digits(a[2]));
+            // equal sequences: both views are taken from the same string object
+            let d2: &DnaString = if a[1] == a[2] { &d1 } else { &d2_own };
             let a1: usize = a[3].parse().unwrap();
             let a2: usize = a[5].parse().unwrap();
             let n: usize = a[7].parse().unwrap();
@@ -120,6 +122,12 @@ pub fn gen(rng: &mut Rng, tier: &str) -> String {
             for _ in 0..pad { v.push(rng.below(4) as u8); }
             v
         };
+        if rng.chance(1, 6) {
+            // two views of one and the same string: the same window in both orientations, or two windows
+            let s = emb(rng, &core, a1, pad1 + 40, false);
+            let (b2, q2) = if rng.chance(2, 3) { (a1, !r1) } else { (rng.below(a1 + pad1 + 41), rng.chance(1, 2)) };
+            return format!("C15 ham {} {} {} {} {} {} {}", show_digits(&s), show_digits(&s), a1, r1 as u8, b2, q2 as u8, n);
+        }
         let s1 = emb(rng, &core, a1, pad1, r1);
         let s2 = emb(rng, &other, a2, pad2, r2);
         return format!("C15 ham {} {} {} {} {} {} {}", show_digits(&s1), show_digits(&s2), a1, r1 as u8, a2, r2 as u8, n);
